@@ -65,7 +65,7 @@ MC = {
 # ---- B3: vector generators (module, constants of the cfg per tier, formulas that judge the recorded steps) ----
 B3 = {
     "C17": [dict(gen="Gen_Batch", quick="BatchSizes = {2, 3, 8, 16}", thorough="BatchSizes = {2, 3, 5, 8, 16, 32, 64}", props=["P_C17", "P_C16"])],
-    "C18": [dict(gen="Gen_Settings", quick="MaxSettings = 3\n  AllOrders = FALSE", thorough="MaxSettings = 3\n  AllOrders = TRUE", props=["P_C18", "P_C10"])],
+    "C18": [dict(gen="Gen_Settings", quick="MaxSettings = 3\n  AllOrders = FALSE\n  Full = FALSE", thorough="MaxSettings = 3\n  AllOrders = TRUE\n  Full = TRUE", props=["P_C18", "P_C10"])],
     "C06": [dict(gen="Gen_Canary", quick="Full = FALSE", thorough="Full = TRUE", props=["P_C06", "P_C08", "P_C14"])],
     "C03": [dict(gen="Gen_Limits",
                  quick='MaxN = 4\n  Reps = 2\n  MaxUs = {"0", "1", "2", "50%"}\n  MaxSFs = {"0", "1"}\n  Variants <- VariantsQuick',
@@ -78,6 +78,9 @@ FN = {
     "C16": [dict(gen="Gen_Defaults", judge="Judge_Defaults", quick="Full = FALSE", thorough="Full = TRUE")],
     "C20": [dict(gen="Gen_Labels", judge="Judge_Labels", quick="MaxLen = 2\n  MaxKeys = 2", thorough="MaxLen = 2\n  MaxKeys = 3")],
 }
+
+# ---- binding B2: which Sched_<name>.cfg provides the simulated behaviours replayed into the real code
+SCHED = {p: "canary" for p in ("C01", "C02", "C03", "C04", "C05", "C07", "C08", "C09", "C12", "C13", "C14", "C15")}
 
 # ---- fault enumeration: scenarios per tier; formulas judged on the faulted runs ----
 FAULTS = {
